@@ -154,7 +154,7 @@ func c16Run(arbitraryStart bool) {
 		dev.state = c16Fmq[vrt.IntRange("devstate", 0, len(c16Fmq)-1)]
 	}
 	start := dev.state
-	client := &RpcClient{OccClient: dev, Log: &logrus.Entry{}}
+	client := &RpcClient{OccClient: dev, Log: logrus.NewEntry(logrus.New())}
 	client.Transitioner = transitioner.NewTransitioner(1 /* controlmode.FAIRMQ */, client.doTransition)
 	_, isFmq := client.Transitioner.(*transitioner.FairMQ)
 	vrt.Assert(isFmq, "fairmq-transitioner-selected")
@@ -204,10 +204,10 @@ func c16Run(arbitraryStart bool) {
 	}
 }
 
-//verif:entry HarnessFairMQCommit unwind=12 reach=success,failure,noop,stuck,rolledback stub=(github.com/AliceO2Group/Control/executor/protos.StateChangeTrigger).String silence=google.golang.org/grpc/status
+//verif:entry HarnessFairMQCommit unwind=12 conform=12 reach=success,failure,noop,stuck,rolledback stub=(github.com/AliceO2Group/Control/executor/protos.StateChangeTrigger).String silence=google.golang.org/grpc/status
 func HarnessFairMQCommit() { c16Run(false) }
 
-//verif:entry HarnessFairMQCommitAnyDeviceState unwind=12 reach=success,failure stub=(github.com/AliceO2Group/Control/executor/protos.StateChangeTrigger).String silence=google.golang.org/grpc/status
+//verif:entry HarnessFairMQCommitAnyDeviceState unwind=12 conform=12 reach=success,failure stub=(github.com/AliceO2Group/Control/executor/protos.StateChangeTrigger).String silence=google.golang.org/grpc/status
 func HarnessFairMQCommitAnyDeviceState() { c16Run(true) }
 
 // ---- reply acceptance rule of the gRPC client ---------------------------------------------------
@@ -222,7 +222,7 @@ func (d *occReply) Transition(ctx context.Context, in *pb.TransitionRequest, opt
 	return d.reply, d.err
 }
 
-//verif:entry HarnessDoTransitionAccept unwind=4 reach=accepted,rejected,transport,nilreply stub=(github.com/AliceO2Group/Control/executor/protos.StateChangeTrigger).String silence=google.golang.org/grpc/status
+//verif:entry HarnessDoTransitionAccept unwind=4 conform=12 reach=accepted,rejected,transport,nilreply stub=(github.com/AliceO2Group/Control/executor/protos.StateChangeTrigger).String silence=google.golang.org/grpc/status
 func HarnessDoTransitionAccept() {
 	evt, dst := vrt.String("evt"), vrt.String("dst")
 	rEvt, rState := vrt.String("reply.event"), vrt.String("reply.state")
@@ -237,7 +237,7 @@ func HarnessDoTransitionAccept() {
 		d.err = errors.New("rpc error")
 	case 2: // nil reply, nil error
 	}
-	client := &RpcClient{OccClient: d, Log: &logrus.Entry{}}
+	client := &RpcClient{OccClient: d, Log: logrus.NewEntry(logrus.New())}
 	st, err := client.doTransition(transitioner.EventInfo{Evt: evt, Src: "X", Dst: dst})
 	switch mode {
 	case 0:
@@ -260,7 +260,7 @@ func HarnessDoTransitionAccept() {
 
 // ---- direct transitioner -----------------------------------------------------------------------
 
-//verif:entry HarnessDirectCommit unwind=4
+//verif:entry HarnessDirectCommit unwind=4 conform=12
 func HarnessDirectCommit() {
 	s, fail := vrt.String("state"), vrt.Bool("fail")
 	var seen transitioner.EventInfo
